@@ -377,6 +377,9 @@ def monitor_case(ops, obs, which):
                 fstate["dead_at_open"] = list(dead)
                 fstate["ro_state"] = (o.get("al"), o.get("di"), o.get("ms"), o.get("fl"), o.get("mem")) if ro_mode else None
             fstate["last_fh"] = o.get("fh", fstate["last_fh"])
+            # a refused open may leave a (new, empty or short) file behind: from now on it EXISTS and is too short to be an arena
+            if r.startswith("io:") and o.get("flen", "none").isdigit() and int(o["flen"]) < doff + int(cfg.get("offset", "0")):
+                fstate["badfile"] = True; fstate["kind_ok_ro"] = False
         if "al" not in o:
             continue
         al, di, rem, cp = int(o["al"]), int(o["di"]), int(o["rem"]), int(o["cp"])
@@ -391,6 +394,8 @@ def monitor_case(ops, obs, which):
         if al < doff:
             V("C16", "cursor-below-data-offset", f"after {ops[i].strip()}: allocated() = {al} < data_offset() = {doff}", i)
             V("C17", "cursor-below-data-offset", f"after {ops[i].strip()}: allocated() = {al} < data_offset() = {doff}", i)
+            V("C15", "cursor-below-data-offset", f"after {ops[i].strip()}: allocated() = {al} < data_offset() = {doff}: data() has no length", i)
+            V("C18", "cursor-below-data-offset", f"after {ops[i].strip()}: allocated() = {al} < data_offset() = {doff}", i)
         # ---- C16: the descriptive accessors agree with the configuration on every arena value
         if op == "info" and r == "ok" and o.get("val", "").count(",") == 12:
             f_ = o["val"].split(",")
